@@ -285,7 +285,7 @@ def run(chk, R, tier, seed):
         chk.require(c)
     cases = predefined_cases(chk, rng, tier)
     run_cases(chk, R, cases, per_program=120)
-    nw = 40 if tier == "quick" else 1000
+    nw = 100 if tier == "quick" else 1000
     done = 0
     while done < nw:
         n = min(nw - done, 400)
